@@ -118,6 +118,7 @@ def run(ctx, rep):
     rep.section(n6, ctx, rep)
     rep.section(n7, ctx, rep)
     rep.section(n8, ctx, rep)
+    rep.section(n9, ctx, rep)
     rep.section(n5, ctx, rep, T)
     rep.extra['evaluations'] = n_sites
 
@@ -587,6 +588,63 @@ def n8(ctx, rep):
                 rep.fail('N8', 'resolver:for-over-crates', f"{f['qual']} loops over the per-name rename map: the rename of a crate the reference does not name can be chosen", {'file': f['file'], 'line': fr.get('line')})
                 break
     rep.floor('N8', 'uses of the per-name rename map in the resolver', n, 2)
+
+
+def n9(ctx, rep):
+    """N9 (siblings agree on glob imports): the visitor records `use other::*` as an import whose type name is the marker "*".
+    Every function that picks imports by comparing `type_name` with the name of a referenced type is a consumer of that set; a
+    consumer that never looks at the marker treats a crate imported by glob as not imported at all.  The consumers are
+    enumerated from the code; each must also test `type_name == "*"` (in its inlined body).  For the rename resolver the
+    consequence is a reference left under its Rust name while the definition (and the import line) use the serde name."""
+    def sides(x):
+        a = [vt.unvar(y) for y in x.get('args', [])]
+        if len(a) != 2:
+            return None, None
+        def is_tn(y):
+            y = vt.strip(y)
+            return isinstance(y, dict) and ((y.get('k') == 'field' and y.get('name') == 'type_name') or (y.get('k') == 'atom' and (y.get('path') or [None])[-1] == 'type_name'))
+        if is_tn(a[0]):
+            return a[0], a[1]
+        if is_tn(a[1]):
+            return a[1], a[0]
+        return None, None
+    consumers = []
+    for g in ctx.astq['functions']:
+        if not g['file'].startswith('core/src/') or '#[test]' in ' '.join(g.get('attrs', [])) or 'test' in str(g.get('mod') or ''):
+            continue
+        names, globs = [], []
+        G = ctx.x(g)
+        blobs = [c for c in G['calls']] + [l.get('v') for l in G.get('lets', [])] + [G.get('tail')] + [r.get('v') for r in G.get('returns', [])] + [fr.get('c') for c in G['calls'] for fr in c.get('guard', []) if fr.get('k') == 'if']
+        def every(n, d=0):
+            if d > 80:
+                return
+            if isinstance(n, list):
+                for y in n:
+                    yield from every(y, d + 1)
+            elif isinstance(n, dict):
+                yield n
+                for k_, y in n.items():
+                    if k_ not in ('guard', 'ty') and isinstance(y, (dict, list)):
+                        yield from every(y, d + 1)
+        own = [c for c in g['calls']] + [l.get('v') for l in g.get('lets', [])] + [g.get('tail')] + [r.get('v') for r in g.get('returns', [])] + [fr.get('c') for c in g['calls'] for fr in c.get('guard', []) if fr.get('k') == 'if']
+        for src, is_own in ((own, True), (blobs, False)):
+            for x in every(src):
+                if isinstance(x, dict) and x.get('k') == 'op' and x.get('op') in ('==', '!='):
+                    tn, other = sides(x)
+                    if tn is None:
+                        continue
+                    o = vt.strip(other)
+                    if isinstance(o, dict) and o.get('k') == 'lit' and o.get('v') == '*':
+                        globs.append(x)            # judged on the inlined body: the clause may sit in a helper
+                    elif is_own and not (isinstance(o, dict) and o.get('k') == 'lit'):
+                        names.append(x)            # a consumer is the function that writes the comparison itself
+        if names and not g.get('nested_in'):
+            consumers.append((g, bool(globs)))
+    rep.floor('N9', 'consumers of the import set that select by type name', len(consumers), 3)
+    for g, aware in consumers:
+        rep.check(aware, 'N9', f"{g['name'].split('::')[-1]}:glob-imports-consulted", 'also tests the glob marker "*"',
+                  f"{g['qual']} selects imports with `type_name == <name>` only and never looks at the glob marker \"*\" the visitor records for `use other::*` (its siblings do): a type reached through a glob import counts as not imported — "
+                  'for the rename resolver: the reference keeps its Rust name while the definition and the import line carry the serde name', {'file': g['file'], 'line': g['line']})
 
 
 def n3(ctx, rep):
